@@ -110,9 +110,9 @@ func firstLine(s string) string {
 	return s
 }
 
-var golibFrame = regexp.MustCompile(`github\.com/welllog/golib/([a-z]+)\.([^\s(]*(?:\([^)]*\))?[^\s(]*)`)
+var genericArgs = regexp.MustCompile(`\[[^\]]*\]`)
 
-// golibFuncs extracts, in order, the golib (non-zzsim) functions named in a stack dump.
+// golibFuncs extracts, innermost first, the golib (non-zzsim) functions named in a stack dump.
 func golibFuncs(text string) []string {
 	var out []string
 	for _, line := range strings.Split(text, "\n") {
@@ -121,14 +121,35 @@ func golibFuncs(text string) []string {
 			continue
 		}
 		f := strings.TrimPrefix(line, "github.com/welllog/golib/")
-		if i := strings.LastIndex(f, "("); i > 0 && strings.HasSuffix(f, ")") && !strings.HasSuffix(f, "]).") {
-			// strip the argument list "(...)" at the end of a frame line
+		f = genericArgs.ReplaceAllString(f, "")
+		// strip the argument list "(...)" at the end of a frame line
+		if i := strings.LastIndex(f, "("); i > 0 && strings.HasSuffix(f, ")") {
 			f = f[:i]
 		}
-		f = strings.ReplaceAll(f, "[...]", "")
+		// closures: mapz.(*SafeKV).All.func1 -> mapz.(*SafeKV).All
+		for {
+			j := strings.LastIndex(f, ".")
+			if j > 0 && (strings.HasPrefix(f[j+1:], "func") || strings.HasPrefix(f[j+1:], "gowrap") || isDigits(f[j+1:])) {
+				f = f[:j]
+				continue
+			}
+			break
+		}
 		out = append(out, strings.TrimSpace(f))
 	}
 	return out
+}
+
+func isDigits(s string) bool {
+	if s == "" {
+		return false
+	}
+	for _, c := range s {
+		if c < '0' || c > '9' {
+			return false
+		}
+	}
+	return true
 }
 
 func panicSite(p string) string {
@@ -139,25 +160,46 @@ func panicSite(p string) string {
 	return "?"
 }
 
-// raceSite names a race by the innermost golib function of each of the two accesses.
+// raceSite names a race by the golib API method (outermost golib frame) of each of the two
+// accesses of the first report.
 func raceSite(text string) string {
-	blocks := strings.Split(text, "\n\n")
 	var sites []string
-	for _, b := range blocks {
-		t := strings.TrimSpace(b)
-		if strings.HasPrefix(t, "WARNING: DATA RACE") {
-			t = strings.TrimSpace(strings.TrimPrefix(t, "WARNING: DATA RACE"))
+	var cur []string
+	in := false
+	flush := func() {
+		if in {
+			fs := golibFuncs(strings.Join(cur, "\n"))
+			if len(fs) > 0 {
+				sites = append(sites, fs[len(fs)-1])
+			} else {
+				sites = append(sites, "?")
+			}
 		}
+		in = false
+		cur = nil
+	}
+	for _, line := range strings.Split(text, "\n") {
+		t := strings.TrimSpace(line)
 		if strings.HasPrefix(t, "Read at") || strings.HasPrefix(t, "Write at") || strings.HasPrefix(t, "Previous read at") ||
 			strings.HasPrefix(t, "Previous write at") || strings.HasPrefix(t, "Atomic") || strings.HasPrefix(t, "Previous atomic") {
-			fs := golibFuncs(t)
-			if len(fs) > 0 {
-				sites = append(sites, fs[0])
-			}
-			if len(sites) == 2 {
+			flush()
+			in = true
+			continue
+		}
+		if t == "" || strings.HasPrefix(t, "Goroutine") || strings.HasPrefix(t, "====") {
+			flush()
+			if len(sites) >= 2 {
 				break
 			}
+			continue
 		}
+		if in {
+			cur = append(cur, t)
+		}
+	}
+	flush()
+	if len(sites) > 2 {
+		sites = sites[:2]
 	}
 	sort.Strings(sites)
 	if len(sites) == 0 {
